@@ -31,6 +31,9 @@ struct HandEntry {
     by: u32,
     response: u64,
     t_us: u64,
+    /// Earliest instant the delivery can have been handed out (invocation of the unary Pull;
+    /// for stream items the receive time).
+    lo_us: u64,
 }
 
 struct StreamCtl {
@@ -313,13 +316,18 @@ impl Sim {
     }
 
     fn note_received(&self, client: u32, sub: &str, recvs: &[Recv]) {
+        self.note_received_since(client, sub, recvs, None)
+    }
+
+    fn note_received_since(&self, client: u32, sub: &str, recvs: &[Recv], invoked_us: Option<u64>) {
         let response = self.next_response.get();
         self.next_response.set(response + 1);
         let t_us = self.now_us();
+        let lo_us = invoked_us.unwrap_or(t_us);
         let mut hands = self.hands.borrow_mut();
         let hand = hands.entry(sub.to_string()).or_default();
         for r in recvs {
-            hand.push(HandEntry { ack_id: r.ack_id.clone(), by: client, response, t_us });
+            hand.push(HandEntry { ack_id: r.ack_id.clone(), by: client, response, t_us, lo_us });
         }
     }
 
@@ -371,13 +379,14 @@ impl Sim {
             max_messages: max,
         };
         let req = Req::Pull { sub: sub.to_string(), max, immediate, bg_slot };
+        let invoked_us = self.now_us();
         let out = self
             .unary(client, req, abandon_at, cancel, PULL_HANG_LIMIT, async move { c.pull(request).await }, |r: pb::PullResponse| {
                 Resp::Pulled(r.received_messages.iter().map(recv_of).collect())
             })
             .await;
         if let Outcome::Ok(Resp::Pulled(recvs)) = &out {
-            self.note_received(client, sub, recvs);
+            self.note_received_since(client, sub, recvs, Some(invoked_us));
         }
         out
     }
@@ -921,8 +930,8 @@ impl Sim {
                 let hostile = !raw_sub.is_empty() || *raw_max_msgs != 0 || *raw_max_bytes != 0 || !extra_secs.is_empty() || acks.iter().any(bad_id) || modacks.iter().any(bad_id) || secs.iter().any(|x| *x < 0);
                 self.stream_send_raw(client, *slot, acks, modacks, secs, hostile, Some((raw_sub.clone(), *raw_max_msgs, *raw_max_bytes, *stream_secs)));
             }
-            Op::SleepUntilLeaseEnd { sub, nth, secs, offset_us } => {
-                let t = self.hands.borrow().get(sub).and_then(|h| h.get(*nth as usize).map(|e| e.t_us));
+            Op::SleepUntilLeaseEnd { sub, nth, secs, offset_us, from_invoke } => {
+                let t = self.hands.borrow().get(sub).and_then(|h| h.get(*nth as usize).map(|e| if *from_invoke { e.lo_us } else { e.t_us }));
                 if let Some(t) = t {
                     let target = (t as i64 + (*secs as i64) * 1_000_000 + *offset_us).max(0) as u64;
                     let now = self.now_us();
